@@ -42,6 +42,8 @@ func replay(cw *caseWriter, path string) {
 				c06monitor(cw)(tag, in, obs)
 				c04monitor(cw)(tag, in, obs)
 				c07nMonitor(cw)(tag, in, obs)
+				c10monitor(cw)(tag, in, obs)
+				c12monitor(cw)(tag, in, obs)
 			})
 		case 7:
 			c07exec(cw, tag, in, true)
@@ -89,21 +91,26 @@ func main() {
 		runC14(cw, tier, seed)
 	case "c13":
 		runC13(cw, tier, seed)
+	case "c10":
+		runC10(cw, tier, seed)
+	case "c12":
+		runC12(cw, tier, seed)
+	case "c02":
+		runC02(cw, tier, seed)
 	case "c07":
 		runC07(cw, tier, seed)
 	case "c11":
 		runC11(cw, tier, seed)
 	case "dump":
 		r := &rng{s: seed}
-		c := scStaleGrants(r)
+		_ = r
+		c := scenarioFamilies[7](&rng{s: seed*1000003 + 7})
 		c.shutdown()
-		dumpHistory(c, 200)
+		dumpHistory(c, 3000)
 		fmt.Println(c.monitor())
 	case "demo":
 		t0 := time.Now()
-		runScenarios(cw, 1, seed, 100, 12)
-		runScenarios(cw, 2, seed, 100, 12)
-		runScenarios(cw, 3, seed, 40, 12)
+		runScenarios(cw, 7, seed, 60, 12)
 		fmt.Println("elapsed", time.Since(t0))
 	default:
 		fmt.Fprintln(os.Stderr, "unknown component", comp)
